@@ -368,8 +368,16 @@ func c03TreeCases(rng *core.Rng, corpus *c03Corpus) c03Input {
 		in.Files["p/a_test.go"] = "package p\nfunc T() {}"
 		in.Arg = "p"
 	case 6:
-		in.Files["p/a.go"] = core.Pick(rng, []string{"//go:build", "//go:build (", "//go:build !", "//go:build goat &&", "// +build x\n\npackage p", "//go:build ignore\n\npackage p"}) + "\npackage p\n"
+		in.Files["p/a.go"] = core.Pick(rng, []string{"//go:build", "//go:build (", "//go:build !", "//go:build goat &&", "// +build x\n\npackage p", "//go:build ignore\n\npackage p",
+			// file headers that never end, or end oddly, before any package clause
+			"/* never closed\n\n//go:build goat\n", "/*", "/*\n\n\n", "/* a */ /* b", "//", "// only a comment", "/**/", "\n\n\n", "/* x */\n//go:build goat\n/* y", "\ufeffpackage p", "//go:build goat\n/*"}) + core.Pick(rng, []string{"\npackage p\n", "", "\n"})
 		in.Arg = "p"
+		if rng.Bool() {
+			// the same file as a dependency of a loaded package, next to a well-formed file
+			in.Files["p/z_ok.go"] = "package p\n\nvar X = 1\n"
+			in.Files["main/main.go"] = "package main\nimport \"p\"\nfunc main() { println(p.X) }"
+			in.Arg = "main"
+		}
 	case 7:
 		in.Files["p/x.go/y.go"] = "package y"
 		in.Arg = "p"
@@ -447,8 +455,8 @@ func c03MakeInput(seed int64, corpus *c03Corpus, idx int, exhaustivePrefixes []s
 		return c03TreeCases(rng, corpus)
 	default:
 		in := c03Input{Kind: "call", Mutator: "api",
-			Src:   "func f0() int { return 1 }; func f2(a int, b string) (int, string) { return a, b }; func fv(xs ...int) int { return len(xs) }; func boom() { panic(\"boom\") }; func deep(n int) int { return deep(n+1) }; x := 5; type T struct { A int }; func (t *T) M() int { return t.A }; t := &T{}; m := t.M",
-			Entry: core.Pick(rng, []string{"main.f0", "main.f2", "main.fv", "main.boom", "main.deep", "main.x", "main.nope", "main.T", "main.t", "main.m", "fmt.Println", "builtin.__type", "nil", "", "func:main.f2", "func:main.x", "func:main.nope", "func:main.m", "func:true", "strings.Repeat", "strconv.Itoa", "math.Sqrt", "golang.org/x/exp/slices.SortFunc"}),
+			Src:   "func f0() int { return 1 }; func f2(a int, b string) (int, string) { return a, b }; func fv(xs ...int) int { return len(xs) }; func boom() { panic(\"boom\") }; func deep(n int) int { return deep(n+1) }; x := 5; type T struct { A int; CB func(int) int }; func (t *T) M() int { return t.A }; t := &T{}; m := t.M; var cb func(int) int; var nt *T; var ns []int; var nm map[string]int; var na any",
+			Entry: core.Pick(rng, []string{"main.f0", "main.f2", "main.fv", "main.boom", "main.deep", "main.x", "main.nope", "main.T", "main.t", "main.m", "main.cb", "main.nt", "main.ns", "main.nm", "main.na", "func:main.cb", "func:main.nt", "func:main.na", "func:main.ns", "fmt.Println", "builtin.__type", "nil", "", "func:main.f2", "func:main.x", "func:main.nope", "func:main.m", "func:true", "strings.Repeat", "strconv.Itoa", "math.Sqrt", "golang.org/x/exp/slices.SortFunc"}),
 			XRets: rng.Intn(5), NArgs: rng.Intn(5)}
 		return in
 	}
